@@ -83,8 +83,12 @@ type vdC08Cached struct{ *vdC08Rep }
 func (c vdC08Cached) AllocateCounter(string, map[string]string) CachedCount {
 	return vdC08Count{c.vdC08Rep}
 }
-func (c vdC08Cached) AllocateGauge(string, map[string]string) CachedGauge { return vdC08Nop{c.vdC08Rep} }
-func (c vdC08Cached) AllocateTimer(string, map[string]string) CachedTimer { return vdC08Nop{c.vdC08Rep} }
+func (c vdC08Cached) AllocateGauge(string, map[string]string) CachedGauge {
+	return vdC08Nop{c.vdC08Rep}
+}
+func (c vdC08Cached) AllocateTimer(string, map[string]string) CachedTimer {
+	return vdC08Nop{c.vdC08Rep}
+}
 func (c vdC08Cached) AllocateHistogram(string, map[string]string, Buckets) CachedHistogram {
 	return nil
 }
